@@ -4,7 +4,7 @@ import math
 import numpy as np
 import pandas as pd
 
-from scipy.stats import kstest, percentileofscore, spearmanr
+from scipy.stats import kstest, percentileofscore, spearmanr, rankdata
 
 import warnings
 
@@ -535,8 +535,9 @@ def dscore(obs, sim, eps=1e-6):
     nval, nens = sim.shape
 
     if nens == 1:
-        # Compute ensemble rank for deterministic forecasts
-        franks = np.argsort(np.argsort(sim[:, 0]))
+        # Compute ensemble rank for deterministic forecasts.
+        # Tied forecasts share their mid-rank, as in c_ensrank
+        franks = rankdata(sim[:, 0])
     else:
         # initialise data
         fmat = np.zeros((nval, nval), dtype=np.float64)
